@@ -10,9 +10,14 @@ def parseAns (t : String) : Option Ans :=
   match t.splitOn "." with
   | ["F", sens, rid, p2p, atr] =>
     match parseHex sens, parseHex rid, atr.toNat? with
-    | some s, some r, some a => some (.found ⟨s, r, p2p == "1", a⟩)
+    | some s, some r, some a => some (.found { sens := s, rid := r, p2p := p2p == "1", atrLen := a })
     | _, _, _ => none
+  | ["F", sens, rid, p2p, atr, var] =>
+    match parseHex sens, parseHex rid, atr.toNat?, var.toNat? with
+    | some s, some r, some a, some v => some (.found { sens := s, rid := r, p2p := p2p == "1", atrLen := a, var := v })
+    | _, _, _, _ => none
   | ["0"] => some .nothing | ["c"] => some .commErr | ["k"] => some .brokenLink
+  | ["T"] => some .transErr | ["P"] => some .protoErr
   | ["u"] => some .unsupported | ["i"] => some .ioError | ["K"] => some .kbd
   | ["X"] => some .sysExit | ["L"] => some .listenErr
   | [p] => if headCh p == 'p' then (tailStr p).toNat?.map Ans.polls else none
@@ -45,11 +50,11 @@ def parseStartup (r : Role) (t : String) : Option (Option (StartRes × Nat)) :=
   match r, t.toNat? with
   | .rdwr, some 0 => some (some (.proper, 0)) | .rdwr, some 1 => some (some (.falsy, 1))
   | .rdwr, some 2 => some (some (.wrongType, 2)) | .rdwr, some 3 => some (some (.nonIterable, 3))
-  | .rdwr, some 4 => some (some (.falsy, 4))
+  | .rdwr, some 4 => some (some (.falsy, 4)) | .rdwr, some 5 => some (some (.proper, 5))
   | .llcp, some 0 => some (some (.proper, 0)) | .llcp, some 1 => some (some (.falsy, 1))
   | .llcp, some 2 => some (some (.wrongType, 2))
   | .card, some 0 => some (some (.proper, 0)) | .card, some 1 => some (some (.falsy, 1))
-  | .card, some 2 => some (some (.wrongType, 2))
+  | .card, some 2 => some (some (.wrongType, 2)) | .card, some 3 => some (some (.proper, 3))
   | _, _ => none
 
 def parseRdwr (t : String) : Option (Option RdwrOpts) :=
@@ -110,7 +115,7 @@ def showFound (remote : Bool) : Py (Option (Nat × Found)) → String
   | .ok (some (id, _)) => (if remote then "ok r" else "ok l") ++ toString id
   | .error e => "exc " ++ e.name
 
-def showXchg : Py (Option Bool) → String
+def showXchg : Py (Option Bytes) → String
   | .ok none => "ok none" | .ok (some _) => "ok data" | .error e => "exc " ++ e.name
 
 def showRet : RetVal → String
@@ -155,6 +160,7 @@ def handle (line : String) : String :=
       let (out, s) := connect ⟨r, l, c⟩ env ts
       showLog s.log ++ " | " ++ showOutcome out
     | _, _, _, _, _ => "bad-op"
+  | ["versionmap"] => ",".intercalate (versionMap.map toHex)
   | _ => "bad-op"
 
 def main : IO Unit := runDriver handle
